@@ -1347,6 +1347,18 @@ class LabReplay:
                     self.report("C05", "solvent_lost", key, f"{out.call}: {s}: taken {taken!r}, in the solution {mc.get(s, 0.0)!r}", ev, ctx["pre_key"])
                     return
 
+    def aliquot_asserted(self, ctx):
+        """'the stock's own concentration' is asserted to be reachable only where the user's numbers are exact: the stock
+        is an initial-state object (built from stated amounts, no concentration-driven operation on the path), and the
+        stated concentration and total are short decimals in base units in every spelling - far above the library's
+        rounding of a parsed concentration.  A refusal then comes from noise in the implementation's own arithmetic
+        (its stored amounts are within 1e-16 of what was typed), not from the rounding of anything the user typed."""
+        ev, inst = ctx["ev"], self.inst
+        if ctx["st"].get("inexact", False) or ctx["k"] > 1:
+            return False
+        base = inst.conc_base(rat(ev["t"]), ev["nu"], ev["du"])
+        return model.is_short_decimal_ok(base, 5) and base >= F(1, 100) and inst.quantity_exact(rat(ev["total"]), ev["tu"])
+
     def mon_c12(self, ctx):
         ev, out, objs, inst = ctx["ev"], ctx["out"], ctx["objs"], self.inst
         if ev["op"] != "create_solution_from":
@@ -1363,6 +1375,10 @@ class LabReplay:
         if not out.ok:
             if cls == "interior":
                 self.report("C12", "feasible_refused", dict(key, exc=type(out.exc).__name__), f"{out.call}: feasible but raised {type(out.exc).__name__}: {out.exc}", ev, ctx["pre_key"])
+            elif ev.get("aliquot") and self.aliquot_asserted(ctx):
+                # the stock's own concentration, stated exactly: a concentration the stock can reach (no solvent is needed)
+                self.report("C12", "feasible_refused", dict(key, cls="aliquot", exc=type(out.exc).__name__),
+                            f"{out.call}: the stock's own concentration (a plain aliquot) but raised {type(out.exc).__name__}: {out.exc}", ev, ctx["pre_key"])
             return
         new = out.new[ev["n"]]
         mc, foreign = self.model_contents(new)
